@@ -18,14 +18,15 @@ Parameters of the theorems (the codec side, C01/C03, and C10 enter here as hypot
   "the decoded key is Equal to a stored key", never how it was obtained (F4 lives there);
 * `goEq` — Go's key equality on the response maps' key type `K` (pointer identity / `==`).
 
-Guards and what they stand for
-* `HashCongrOn`  — `c16_addKey_rejects_iff_dup_cex` (a `+0.0`/`−0.0` float key pair: both accepted);
-* `NoRepeat` (`ADoc.Located`'s second half) — the server does not return one key twice in one of
-  the three maps. If it does, an entry is silently lost: `c16_response_repeated_key_cex`;
-* "last occurrence" — a field that appears twice in the JSON document is re-made from scratch:
-  `c16_response_repeated_field_cex`;
-* primitive key sets return the *probe*: for `float` keys `+0/−0` the entry is filed under the
-  decoded copy's sign, `c16_prim_locate_cex`. -/
+Hypotheses and what they stand for (none of them guards against a defect of the current code)
+* `HashCongrOn`, symmetry/transitivity of `O.eq` — laws of the key type, from C10; they hold for
+  float-bearing keys since `fix: hash -0.0 like +0.0`;
+* `ADoc.Located` / `FieldsOnce` in `c16_response_accepted_when_wellformed` — what "a well-formed
+  reply about requested keys" means. The *correlation* theorem `c16_response_filed_under_original`
+  needs no such hypothesis: a reply naming a key or a field twice is now rejected
+  (`c16_response_repeated_key_is_error`, `c16_response_repeated_field_is_error`), it no longer loses
+  entries;
+* primitive key sets return the stored key (`c16_prim_locate_returns_original`), `+0/−0` included. -/
 namespace Restli.KeySet
 open Restli Restli.Equals
 
@@ -39,30 +40,24 @@ theorem c16_addKey_rejects_only_dups (O : KeyOps α) (s : GenericSet α) (t : Ke
   obtain ⟨k, hk, he⟩ := (addKey_eq_none_iff O s t).1 h
   exact ⟨k, mem_allKeys.2 ⟨_, bucketOf_mem hk, hk⟩, he⟩
 
-/-- the full-strength statement: `AddKey` fails exactly when an Equal key is already present -/
-def AddKeyRejectsIffDup (O : KeyOps α) : Prop :=
-  ∀ (s : GenericSet α) (t : Key α), Good O s →
-    (addKey O s t = none ↔ ∃ k ∈ s.allKeys, O.eq t.val k.val = true)
-
-/-- With hash congruence on the keys at hand (C10), `AddKey` rejects **iff** an Equal key is
-already in the set — whatever bucket it hashed to, however many unequal keys share a bucket. -/
-theorem c16_addKey_rejects_iff_dup_partial (O : KeyOps α) (s : GenericSet α) (t : Key α)
+/-- `AddKey` rejects **iff** an Equal key is already in the set — whatever bucket it hashed to,
+however many unequal keys share a bucket. `HashCongrOn` (Equal keys among those at hand hash alike)
+is the key type's C10 law `hash_congr`; it is a hypothesis about the *parameter* `O`, not a guard
+against a defect: since `fix: hash -0.0 like +0.0` it holds for float-bearing keys too (before, the
+record keys `{f:+0.0}` and `{f:−0.0}` were both accepted — see DESIGN §7 F15). -/
+theorem c16_addKey_rejects_iff_dup (O : KeyOps α) (s : GenericSet α) (t : Key α)
     (g : Good O s) (hc : HashCongrOn O (t :: s.allKeys)) :
     addKey O s t = none ↔ ∃ k ∈ s.allKeys, O.eq t.val k.val = true :=
   addKey_none_iff_dup g t hc
 
-/-- a key type as generated for `record K { f: double }`: Equals is `==`, hash is over the bits -/
+/-- a key type as generated for `record K { f: double }`: Equals is `==`, hash is `HashFloat64` -/
 def floatKeyOps : KeyOps UInt64 := ⟨floatEq64, fun b => Fnv.hashFloat64 Fnv.paramsV2 b⟩
 
-/-- **Without** hash congruence the statement is false on the code as written: `+0.0` and `−0.0`
-are Equal, land in different buckets, and both are accepted (then both are sent, as `0` and `-0`). -/
-theorem c16_addKey_rejects_iff_dup_cex : ¬ AddKeyRejectsIffDup floatKeyOps := by
-  intro h
-  have g : Good floatKeyOps ⟨[(Fnv.hashFloat64 Fnv.paramsV2 0, [⟨1, 0⟩])], 1⟩ :=
-    good_addKey (good_empty floatKeyOps) (t := ⟨1, 0⟩) (by decide)
-  have := (h _ ⟨2, 0x8000000000000000⟩ g).2 ⟨⟨1, 0⟩, by decide, by decide⟩
-  revert this
-  decide
+/-- that key type satisfies the hypothesis unconditionally: `==` floats hash alike -/
+theorem c16_float_keys_hash_congr (keys : List (Key UInt64)) : HashCongrOn floatKeyOps keys := by
+  intro a _ b _ he
+  simp only [floatKeyOps, Fnv.hashFloat64, Fnv.addFloat64] at he ⊢
+  rw [floatEq64_normZero _ _ he]
 
 /-- `AddAllKeys` on an empty set succeeds iff no key of the list is Equal to an earlier one; on
 success the set holds exactly the caller's keys (as objects), and is well formed. On failure no
@@ -137,21 +132,60 @@ theorem c16_ids_marshal_error (encode : α → Option Bytes) (s : GenericSet α)
 /-- What happens when the encoding is **not** injective on inequivalent keys: both keys are
 accepted, and the same id string is transmitted twice (here two unequal keys encoded alike —
 in Go: two NaN float keys, which are never Equal and both print as `NaN`). -/
-theorem c16_ids_non_injective_cex :
+theorem c16_ids_non_injective_sends_twice :
     ∃ (O : KeyOps Nat) (enc : Nat → Bytes) (s : GenericSet Nat),
       addAll O [⟨1, 1⟩, ⟨2, 2⟩] = .inr s ∧ s.ids (fun k => some (enc k)) = some [[78], [78]] :=
   ⟨⟨fun a b => a == b, fun a => a.toUInt32⟩, fun _ => [78], _, rfl, by decide⟩
 
 /-! ## the response -/
 
-/-- **Every entry of results, statuses and errors is filed under the caller's own key.**
-For a response document whose entries are annotated with stored keys `k` such that the raw key
-decodes to something Equal to `k` (the server answered about requested keys) and in which no
-field names one key twice (`NoRepeat`, as `goEq`-distinct originals): unmarshalling succeeds
-(when `results` is present), and for the last occurrence of each of the three fields the resulting
-map is **exactly** the field's entries re-keyed by those stored key objects — same length, same
-order, same values: none lost, none duplicated, none moved to another key. -/
-theorem c16_response_filed_under_original_partial (O : KeyOps α) (s : GenericSet α) (g : Good O s)
+/-- **Every entry of results, statuses and errors is filed under the caller's own key — full
+strength, no guard.** Whenever unmarshalling a response succeeds, then for *every* occurrence of
+one of the three fields in the document: each of its raw member names decoded to a key `p` and was
+located to a key `k` that is one of the caller's key objects (`k ∈ s.allKeys`, identity tag
+included) and Equal to `p`; these located keys are pairwise distinct; and the resulting map is
+**exactly** the field's entries re-keyed by them — same length, same order, same values: none
+lost, none duplicated, none moved to another key. (A reply that would lose an entry — a key or a
+field named twice — is not accepted at all: see the two theorems below.) -/
+theorem c16_response_filed_under_original (O : KeyOps α) (s : GenericSet α)
+    (decode : Bytes → Option (Key α)) (goEq : Key α → Key α → Bool) (strict : Bool)
+    (doc : List (FieldTag × List (Bytes × Option V))) (b : BatchResponse α V)
+    (h : unmarshalWithKeyLocator strict (locateFromReader decode (locate O s)) goEq doc = .ok b) :
+    ∀ f ∈ doc, f.1 ≠ .other → ∃ es : List (AEntry α V), f.2 = es.map AEntry.plain ∧
+      (∀ e ∈ es, e.2.1 ∈ s.allKeys ∧ ∃ p, decode e.1 = some p ∧ locate O s p = some e.2.1 ∧
+        O.eq e.2.1.val p.val = true) ∧
+      NoRepeat goEq (es.map (·.2.1)) ∧ b.get f.1 = some (es.map AEntry.filed) := by
+  simp only [unmarshalWithKeyLocator] at h
+  cases hf : unmarshalFields strict (locateFromReader decode (locate O s)) goEq [] {} doc with
+  | error x => simp [hf] at h
+  | ok b' =>
+    simp only [hf] at h
+    split at h
+    · simp only [Except.ok.injEq] at h
+      subst h
+      obtain ⟨_, _, h3, _⟩ := unmarshalFields_sound strict _ goEq doc [] {} b' hf
+      intro f hfm hne
+      obtain ⟨es, e1, e2, e3, e4⟩ := h3 f hfm hne
+      refine ⟨es, e1, fun e he => ?_, e3, e4⟩
+      have hlo := e2 e he
+      simp only [locateFromReader] at hlo
+      cases hd : decode e.1 with
+      | none => simp [hd] at hlo
+      | some p =>
+        simp only [hd] at hlo
+        cases hlc : locate O s p with
+        | none => simp [hlc] at hlo
+        | some o =>
+          simp only [hlc, Except.ok.injEq] at hlo
+          subst hlo
+          exact ⟨(locate_mem hlc).1, p, rfl, hlc, (locate_mem hlc).2⟩
+    · simp at h
+
+/-- Conversely a well-formed reply about requested keys **is accepted**: if every raw key decodes
+to something Equal to a stored key (annotation `k`), no field names one key twice, each of the
+three fields occurs at most once, `results` is present (and, in v2, there is no other member), then
+unmarshalling succeeds and yields exactly the entries re-keyed by those stored key objects. -/
+theorem c16_response_accepted_when_wellformed (O : KeyOps α) (s : GenericSet α) (g : Good O s)
     (decode : Bytes → Option (Key α)) (goEq : Key α → Key α → Bool) (strict : Bool) (d : ADoc α V)
     (hother : ∀ f ∈ d, f.1 = .other → strict = false)
     (hsrv : ∀ f ∈ d, f.1 ≠ .other → ∀ e ∈ f.2, e.2.1 ∈ s.allKeys ∧
@@ -159,100 +193,79 @@ theorem c16_response_filed_under_original_partial (O : KeyOps α) (s : GenericSe
         (∀ a ∈ s.allKeys, O.eq a.val p.val = true → O.eq p.val a.val = true) ∧
         (∀ a ∈ s.allKeys, ∀ b ∈ s.allKeys, O.eq b.val p.val = true → O.eq p.val a.val = true →
           O.eq b.val a.val = true))
-    (hnr : ∀ f ∈ d, f.1 ≠ .other → (f.2.map (·.2.1)).Pairwise (fun a b => goEq a b = false))
+    (hnr : ∀ f ∈ d, f.1 ≠ .other → NoRepeat goEq (f.2.map (·.2.1)))
+    (honce : FieldsOnce [] (d.map (·.1)))
     (hres : FieldTag.results ∈ d.map (·.1)) :
     ∃ b, unmarshalWithKeyLocator strict (locateFromReader decode (locate O s)) goEq d.plain = .ok b ∧
-      ∀ pre post t es, d = pre ++ (t, es) :: post → t ≠ .other → t ∉ post.map (·.1) →
-        b.get t = some (es.map AEntry.filed) := by
+      ∀ pre post t es, d = pre ++ (t, es) :: post → t ≠ .other → b.get t = some (es.map AEntry.filed) := by
   have hloc : d.Located strict (locateFromReader decode (locate O s)) goEq := by
     intro f hf
     refine ⟨hother f hf, fun hne => ⟨fun e he => ?_, hnr f hf hne⟩⟩
     obtain ⟨hk, p, hd, he', hh, hs, ht⟩ := hsrv f hf hne e he
     simp [locateFromReader, hd, locate_eq_some g hk he' hh hs ht]
+  have hok := unmarshalFields_ok strict _ goEq d [] {} hloc honce
   refine ⟨specFields {} d, ?_, ?_⟩
-  · simp only [unmarshalWithKeyLocator, unmarshalFields_ok strict _ goEq d {} hloc]
+  · simp only [unmarshalWithKeyLocator, hok]
     have : d.plain.any (fun f => f.1 == .results) = true := by
       simp only [ADoc.plain, List.any_map, List.any_eq_true]
       obtain ⟨f, hf, hft⟩ := List.mem_map.1 hres
       exact ⟨f, hf, by simp [Function.comp, hft]⟩
     simp [this]
-  · intro pre post t es hd ht hlast
+  · intro pre post t es hd ht
     subst hd
+    have hlast : t ∉ post.map (·.1) := by
+      have := FieldsOnce.not_mem_post (pre.map (·.1)) (post.map (·.1)) (t := t) (by simpa using honce) ht
+      exact this
     exact specFields_get_last _ pre post t es ht hlast
 
-/-- the full-strength statement (no `NoRepeat` guard), for the smallest interesting setting:
-one requested key, a reply whose `results` has `n` entries all located to it -/
-def ResponseNothingLost (O : KeyOps Nat) (decode : Bytes → Option (Key Nat)) : Prop :=
-  ∀ (s : GenericSet Nat) (entries : List (AEntry Nat Nat)), Good O s →
-    (∀ e ∈ entries, locateFromReader decode (locate O s) e.1 = .ok e.2.1) →
-    ∀ b, unmarshalWithKeyLocator true (locateFromReader decode (locate O s)) (fun a b => a.id == b.id)
-          [(.results, entries.map AEntry.plain)] = .ok b →
-      b.results = some (entries.map AEntry.filed)
+/-- **A key named twice in one of the three maps is an error** (it used to lose an entry
+silently): if the original an entry is located to already has an entry in the map being filled,
+the fill — hence the whole unmarshal — fails with `repeatedKey`. -/
+theorem c16_response_repeated_key_is_error (locator : Bytes → Except ErrClass (Key α))
+    (goEq : Key α → Key α → Bool) (m : List (Key α × V)) (raw : Bytes) (v : Option V)
+    (rest : List (Bytes × Option V)) (o : Key α) (hl : locator raw = .ok o)
+    (hp : ∃ kv ∈ m, goEq kv.1 o = true) :
+    fillField locator goEq m ((raw, v) :: rest) = .error .repeatedKey :=
+  fillField_repeated locator goEq m raw v rest o hl hp
 
-/-- **Finding.** When the server's `results` (or `statuses`/`errors`) names the same key twice —
-two JSON members whose names decode to Equal keys, e.g. `"1"` and `"01"`, or a literally repeated
-member — the second entry silently replaces the first: an entry is lost and no error is raised.
-Confirmed on the real code (harness class `reply:repeated-key`). -/
-theorem c16_response_repeated_key_cex :
-    ¬ ResponseNothingLost ⟨fun a b => a == b, fun a => a.toUInt32⟩ (fun raw => some ⟨99, raw.length⟩) := by
-  intro h
-  have g : Good (⟨fun a b => a == b, fun a => a.toUInt32⟩ : KeyOps Nat) ⟨[(1, [⟨7, 1⟩])], 1⟩ :=
-    good_addKey (good_empty _) (t := ⟨7, 1⟩) (by decide)
-  have := h _ [([49], ⟨7, 1⟩, 200), ([50], ⟨7, 1⟩, 201)] g
-    (by intro e he; simp at he; rcases he with rfl | rfl <;> rfl) ⟨some [(⟨7, 1⟩, 201)], none, none⟩ (by rfl)
-  revert this
-  decide
+/-- **A field named twice is an error** (its first occurrence used to be dropped silently). -/
+theorem c16_response_repeated_field_is_error (strict : Bool) (locator : Bytes → Except ErrClass (Key α))
+    (goEq : Key α → Key α → Bool) (seen : List FieldTag) (b : BatchResponse α V) (tag : FieldTag)
+    (entries : List (Bytes × Option V)) (rest : List (FieldTag × List (Bytes × Option V)))
+    (ht : tag ≠ .other) (hs : tag ∈ seen) :
+    unmarshalFields strict locator goEq seen b ((tag, entries) :: rest) = .error .repeatedField :=
+  unmarshalFields_repeated_field strict locator goEq seen b tag entries rest ht hs
 
-/-- **Finding (same class).** A field that occurs twice in the response document is re-made from
-scratch at its second occurrence: the entries of the first occurrence are lost. -/
-theorem c16_response_repeated_field_cex :
-    ∃ b : BatchResponse Nat Nat,
-      unmarshalWithKeyLocator true (fun raw => .ok ⟨raw.length, raw.length⟩) (fun a b => a.id == b.id)
-        [(.results, [([49], some 200)]), (.results, [([50, 50], some 500)])] = .ok b ∧
-      b.results = some [(⟨2, 2⟩, 500)] :=
-  ⟨_, rfl, rfl⟩
-
-/-- A successful unmarshal located **every** raw key of every one of the three fields, and every
-key of the resulting maps is a located original: the result is never extended by a key that
-was not requested. -/
+/-- The result is never extended: every key of every resulting map is one of the caller's key
+objects. -/
 theorem c16_response_keys_are_callers (O : KeyOps α) (s : GenericSet α)
     (decode : Bytes → Option (Key α)) (goEq : Key α → Key α → Bool) (strict : Bool)
     (doc : List (FieldTag × List (Bytes × Option V))) (b : BatchResponse α V)
     (h : unmarshalWithKeyLocator strict (locateFromReader decode (locate O s)) goEq doc = .ok b) :
-    (∀ f ∈ doc, f.1 ≠ .other → ∀ e ∈ f.2, ∃ o ∈ s.allKeys, ∃ p, decode e.1 = some p ∧
-        locate O s p = some o ∧ O.eq o.val p.val = true) ∧
-    (∀ t m, b.get t = some m → ∀ kv ∈ m, kv.1 ∈ s.allKeys) := by
+    ∀ t m, b.get t = some m → ∀ kv ∈ m, kv.1 ∈ s.allKeys := by
+  intro t m hm kv hkv
+  have hfiled := c16_response_filed_under_original O s decode goEq strict doc b h
   simp only [unmarshalWithKeyLocator] at h
-  cases hf : unmarshalFields strict (locateFromReader decode (locate O s)) goEq {} doc with
+  cases hf : unmarshalFields strict (locateFromReader decode (locate O s)) goEq [] {} doc with
   | error x => simp [hf] at h
   | ok b' =>
     simp only [hf] at h
     split at h
     · simp only [Except.ok.injEq] at h
       subst h
-      obtain ⟨h1, h2⟩ := unmarshalFields_located strict _ goEq doc {} b' hf
-      have hl : ∀ raw o, locateFromReader decode (locate O s) raw = .ok o →
-          ∃ p, decode raw = some p ∧ locate O s p = some o := by
-        intro raw o hlo
-        simp only [locateFromReader] at hlo
-        cases hd : decode raw with
-        | none => simp [hd] at hlo
-        | some p =>
-          simp only [hd] at hlo
-          cases hlc : locate O s p with
-          | none => simp [hlc] at hlo
-          | some o' =>
-            simp only [hlc, Except.ok.injEq] at hlo
-            subst hlo
-            exact ⟨p, rfl, hlc⟩
-      refine ⟨fun f hf' hne e he => ?_, fun t m hm kv hkv => ?_⟩
-      · obtain ⟨o, ho⟩ := h1 f hf' hne e he
-        obtain ⟨p, hp, hlc⟩ := hl _ _ ho
-        exact ⟨o, (locate_mem hlc).1, p, hp, hlc, (locate_mem hlc).2⟩
-      · rcases h2 t m hm kv hkv with ⟨m0, hm0, _⟩ | ⟨raw, hraw⟩
-        · cases t <;> simp [BatchResponse.get] at hm0
-        · obtain ⟨p, _, hlc⟩ := hl _ _ hraw
-          exact (locate_mem hlc).1
+      obtain ⟨_, h2, _, _⟩ := unmarshalFields_sound strict _ goEq doc [] {} b' hf
+      by_cases hin : t ∈ doc.map (·.1)
+      · obtain ⟨f, hfm, rfl⟩ := List.mem_map.1 hin
+        have hne : f.1 ≠ .other := by
+          intro e; rw [e] at hm; simp [BatchResponse.get] at hm
+        obtain ⟨es, _, e2, _, e4⟩ := hfiled f hfm hne
+        rw [e4] at hm
+        simp only [Option.some.injEq] at hm
+        subst hm
+        obtain ⟨e, he, rfl⟩ := List.mem_map.1 hkv
+        exact (e2 e he).1
+      · rw [h2 t hin] at hm
+        cases t <;> simp [BatchResponse.get] at hm
     · simp at h
 
 /-- **A response that mentions a key which was never requested is an error**: if some raw key
@@ -268,12 +281,16 @@ theorem c16_unknown_key_is_error (O : KeyOps α) (s : GenericSet α)
   | error x => exact ⟨x, rfl⟩
   | ok b =>
     obtain ⟨f, hf, hne, e, he, hbad⟩ := h
-    obtain ⟨o, ho, p, hp, hlc, heq⟩ := (c16_response_keys_are_callers O s decode goEq strict doc b hu).1 f hf hne e he
+    obtain ⟨es, e1, e2, _, _⟩ := c16_response_filed_under_original O s decode goEq strict doc b hu f hf hne
+    rw [e1] at he
+    obtain ⟨a, ha, rfl⟩ := List.mem_map.1 he
+    obtain ⟨ho, p, hp, _, heq⟩ := e2 a ha
+    simp only [AEntry.plain] at hbad
     rcases hbad with hnone | ⟨p', hp', hall⟩
     · rw [hnone] at hp; cases hp
     · rw [hp'] at hp
       cases hp
-      have := hall o ho
+      have := hall _ ho
       rw [heq] at this
       cases this
 
@@ -314,44 +331,35 @@ theorem c16_prim_addKey_rejects_iff_dup (s : PrimSet) (t : Key Prim) :
   · next h => simp only [List.any_eq_true] at h; simp [h]
   · next h => simp only [List.any_eq_true] at h; simp [h]
 
-/-- the full-strength statement for primitive key sets -/
-def PrimLocateReturnsOriginalValue : Prop :=
-  ∀ (s : PrimSet) (k probe o : Key Prim), k ∈ s.keys → Prim.eq probe.val k.val = true →
-    s.locate probe = some o → o.val = k.val
+/-- **Full strength.** `primitiveKeySet.LocateOriginalKey` returns the **stored** key — the value
+the caller added, identity tag and bit pattern included — for every probe `==` to it; in
+particular the caller's `+0.0` when the server answers `-0`. (`PrimGood`: the set was built by
+`AddKey`, `primGood_addKey`.) -/
+theorem c16_prim_locate_returns_original (s : PrimSet) (g : PrimGood s) (k probe : Key Prim)
+    (hk : k ∈ s.keys) (he : Prim.eq probe.val k.val = true) : s.locate probe = some k := by
+  simp only [PrimSet.locate]
+  have hpw : s.keys.Pairwise (fun a b => Prim.eq b.val a.val = false) := g
+  apply find?_unique hpw hk he
+  intro a b hr hpa hpb
+  -- probe == a and probe == b give b == a, contradicting the invariant
+  have h1 : Prim.eq b.val probe.val = true := by rw [Prim.eq_symm]; exact hpb
+  have := Prim.eq_trans _ _ _ h1 hpa
+  rw [hr] at this
+  cases this
 
-/-- `primitiveKeySet.LocateOriginalKey` returns its *argument*: the entry is filed under the
-re-decoded value. With the guard (not a `+0/−0` pair) that value is bit-identical to the
-caller's, which is all the identity a Go primitive has. -/
-theorem c16_prim_locate_partial (s : PrimSet) (k probe o : Key Prim) (_hk : k ∈ s.keys)
-    (he : Prim.eq probe.val k.val = true) (hz : Prim.sameZeroSign probe.val k.val = true)
-    (h : s.locate probe = some o) : o.val = k.val := by
+/-- whatever the primitive set returns is one of the caller's keys and `==` to the probe -/
+theorem c16_prim_locate_sound (s : PrimSet) (probe o : Key Prim) (h : s.locate probe = some o) :
+    o ∈ s.keys ∧ Prim.eq probe.val o.val = true := by
   simp only [PrimSet.locate] at h
-  split at h
-  · simp only [Option.some.injEq] at h
-    subst h
-    exact Prim.eq_imp_same _ _ he hz
-  · cases h
-
-/-- **Finding.** Without the guard it fails: the caller asks for `+0.0`, the server answers
-`-0.0` (or `-0`), and the result is filed under `−0.0` — the decoded copy, not the caller's value.
-Confirmed on the real code. -/
-theorem c16_prim_locate_cex : ¬ PrimLocateReturnsOriginalValue := by
-  intro h
-  have := h ⟨[⟨1, .f64 0⟩]⟩ ⟨1, .f64 0⟩ ⟨2, .f64 0x8000000000000000⟩ ⟨2, .f64 0x8000000000000000⟩
-    (by simp) (by decide) (by decide)
-  revert this
-  decide
+  have := List.find?_some h
+  exact ⟨List.mem_of_find?_eq_some h, by simpa using this⟩
 
 /-- A probe that is `==` to no key of the set is not found (→ "Unknown key" error). -/
 theorem c16_prim_unknown_key (s : PrimSet) (probe : Key Prim)
     (h : ∀ k ∈ s.keys, Prim.eq probe.val k.val = false) : s.locate probe = none := by
-  simp only [PrimSet.locate]
-  split
-  · next hh =>
-    simp only [List.any_eq_true] at hh
-    obtain ⟨k, hk, he⟩ := hh
-    rw [h k hk] at he; cases he
-  · rfl
+  simp only [PrimSet.locate, List.find?_eq_none]
+  intro x hx
+  simp [h x hx]
 
 /-! ## Non-vacuity -/
 
@@ -387,6 +395,21 @@ example : (unmarshalWithKeyLocator (α := Nat) (V := Nat) true (fun _ => .error 
     [(.results, []), (.other, [])]) = .error .noSuchField := by rfl
 example : (unmarshalWithKeyLocator (α := Nat) (V := Nat) false (fun _ => .error .badKey) (fun a b => a.id == b.id)
     [(.results, []), (.other, [])]) = .ok { results := some [] } := by rfl
+/-- a key named twice in `results`, and `results` itself twice: both rejected -/
+example : (unmarshalWithKeyLocator true
+    (locateFromReader (fun raw => some ⟨99, raw.length⟩) (locate collOps sampleSet))
+    (fun a b => a.id == b.id) [(.results, [([0], some (200 : Nat)), ([7], some 201)])]) = .error .repeatedKey := by rfl
+example : (unmarshalWithKeyLocator true
+    (locateFromReader (fun raw => some ⟨99, raw.length⟩) (locate collOps sampleSet))
+    (fun a b => a.id == b.id) [(.results, [([0], some (200 : Nat))]), (.results, [([0, 0], some 500)])])
+    = .error .repeatedField := by rfl
+/-- the former F15 witnesses: `{f:+0.0}` then `{f:−0.0}` is a duplicate; the primitive set hands
+back the caller's `+0.0` for the probe `−0.0` -/
+example : addAll floatKeyOps [⟨1, 0⟩, ⟨2, 0x8000000000000000⟩] = .inl 1 := by decide
+example : (PrimSet.mk [⟨1, .f64 0⟩]).locate ⟨2, .f64 0x8000000000000000⟩ = some ⟨1, .f64 0⟩ := by decide
+/-- the hypothesis `HashCongrOn` is necessary: with a (hypothetical) key type whose hash is not
+congruent with its equality, an Equal key in another bucket is accepted -/
+example : addAll (⟨fun _ _ => true, fun a => a.toUInt32⟩ : KeyOps Nat) [⟨1, 1⟩, ⟨2, 2⟩] ≠ .inl 1 := by decide
 /-- complex keys: same key part, different params — a duplicate -/
 example : addAll (complexOps (π := Nat) collOps) [⟨1, ⟨5, some 1⟩⟩, ⟨2, ⟨5, some 2⟩⟩] = .inl 1 := by decide
 example : locate (complexOps (π := Nat) collOps) ⟨[(1, [⟨1, ⟨5, some 1⟩⟩])], 1⟩ ⟨9, ⟨5, none⟩⟩
